@@ -46,6 +46,11 @@ def gen_case(rng, tier, i):
     for s_ in spec['surfaces']:
         if s_.get('type') == 'even_asphere' and s_.get('coeffs'):
             s_['coeffs'][0] = 0.0     # the ignored r^2 term is C04's finding `asphere-r2-term`; not re-litigated here
+    if rng.random() < 0.08:
+        fm_ = max(f[0] for f in spec['fields'])
+        if fm_ > 0:      # field list dominated by a negative field: the maximum field is the largest |field|
+            spec['fields'] = [[-fm_, 0.0, 0.0], [0.0, 0.0, 0.0], [round(0.5 * fm_, 6), 0.0, 0.0]]
+            info['negfields'] = True
     return dict(kind='random', spec=spec, info=info)
 
 
@@ -79,6 +84,8 @@ def check_case(case, rec):
         spec = case['spec']
         lens = L.build(spec)
         rec.cls(*L.class_names(case['info']))
+        if case['info'].get('negfields'):
+            rec.cls('negative-dominant-fields')
     wl = L.primary_wavelength(spec)
     tele = bool(spec.get('telecentric'))
     asph = any(s.get('type') == 'even_asphere' and s.get('coeffs') and s['coeffs'][0] != 0 for s in spec['surfaces'])
@@ -93,7 +100,7 @@ def check_case(case, rec):
     scale = max(1.0, float(np.max(np.abs(ya[1:]))), float(np.max(np.abs(yb[1:]))))
     zs = L.vertex_positions(spec)
     stop = [bool(s.get('stop')) for s in spec['surfaces']].index(True) + 1
-    fmax = max(f[0] for f in spec['fields'])
+    fmax = max(abs(f[0]) for f in spec['fields'])      # the full field is the largest |field|
     angle = spec['field_type'] == 'angle'
     # ABCD rays (true limit; used to explain the known asphere mechanism)
     if asph:
